@@ -280,6 +280,12 @@ def r4(p, rep):
         ok = False
         if w is not None:
             for it in w.items:
+                ce = it.context_expr
+                if isinstance(ce, ast.Name):
+                    # `scope = depend_on(*inputs)` bound first
+                    ds = [a.value for a in walk_no_nested(f.node) if isinstance(a, ast.Assign) and any(isinstance(t, ast.Name) and t.id == ce.id for t in a.targets)]
+                    ce = ds[0] if len(ds) == 1 else ce
+                it = ast.withitem(context_expr=ce, optional_vars=it.optional_vars)
                 r = resolve_callee(p, it.context_expr, f.module) if isinstance(it.context_expr, ast.Call) else None
                 if r and r[0] == "func" and r[1].name == "depend_on":
                     # with the input tracers
